@@ -402,6 +402,44 @@ def _unrolled_writer(ctx, rule, key, b, ty):
     own = (rng[1] - rng[0] + 1).bit_length() - 1
     okc = all(c in bits and bits[c] >= own for c in casts) and (bool(casts) or ty in bits)  # an unsigned type already as wide as the work type needs no cast
     ctx.ob(rule, key, "lossless-cast", okc, how="`self as %s` (>= %d bits)" % (sorted(set(casts)), own), detail="integer is cast to %s before formatting (narrower than %d bits loses digits)" % (sorted(set(casts)), own))
+    # later narrowing casts of the magnitude (`n as usize` once the wide loop is done): the value has
+    # to be known to fit - an upper-bound guard on the same variable dominates the cast
+    from guards import described_guards
+    def pure_cast(hb):
+        """`fn to_usize(self) -> usize { self as usize }`: (from, to) of a helper that only casts its argument"""
+        ds = hb.defs.get(0, [])
+        if hb.arg_count != 1 or len(ds) != 1 or ds[0][1] == "term" or any(True for _ in hb.calls()):
+            return None
+        e = strip_refs(hb.origin_rvalue(ds[0][2]))
+        if e[0] == "cast" and e[1] == "IntToInt" and strip_refs(e[2]) == ("param", 1):
+            return (e[4], e[3])
+        return None
+    for x in _writer_bodies(ctx, b):
+        if x is not b and pure_cast(x):
+            continue     # judged where it is called, with the guards that hold there
+        for bb, blk in enumerate(x.blocks):
+            if bb not in x.reachable(0):
+                continue
+            sites = [(s["rv"]["from"], s["rv"]["to"], s["rv"]["a"], s.get("line")) for s in blk["stmts"] if s["k"] == "assign" and s["rv"]["k"] == "cast" and s["rv"]["kind"] == "IntToInt"]
+            t = x.term(bb)
+            if t["k"] == "call" and t.get("local_key") in F.bodies and t["local_key"] not in anchors(F) and pure_cast(F.bodies[t["local_key"]]):
+                pc = pure_cast(F.bodies[t["local_key"]])
+                sites.append((pc[0], pc[1], t["args"][0], t.get("line")))
+            for fr, to, opnd, line_ in sites:
+                s = {"line": line_}
+                if fr not in bits or to not in bits or bits[fr] <= bits[to]:
+                    continue
+                o = strip_refs(x.origin_operand(opnd))
+                if o[0] == "const":
+                    continue
+                if o[0] == "bin" and o[1] in ("Rem", "BitAnd"):
+                    c = _const_of_expr(o[3])
+                    if c is not None and c <= 2 ** bits[to]:
+                        continue   # a remainder: bounded by its (literal) divisor
+                d = describe(x, o)
+                fit = [g for g in described_guards(x, bb) if g[0] == "cmp" and g[1] == d and g[3] is not None and g[3] < 2 ** bits[to]]
+                ctx.ob(rule, key, "narrowing-cast-bounded:%s->%s" % (fr, to), bool(fit), line=s.get("line"), how="`%s as %s` behind %s <= %s" % (d, to, d, fit[0][3] if fit else "?"),
+                       detail="the magnitude `%s` is narrowed from %s to %s with no guard bounding it below 2^%d on that path: larger values lose their high digits" % (d, fr, to, bits[to]))
     # loop thresholds: the 4-digit loop runs while n >= 10^4, the 2-digit step on n >= 100, last split n < 10
     # as intervals: some edge establishes n >= 10^4, one n >= 100, one splits at 10
     wb = _writer_bodies(ctx, b)
